@@ -28,6 +28,9 @@ fn tweak() -> impl Strategy<Value = (Tweaks, String)> {
         // mint of n with an output short by 2^64 - ... : output of n + 2^63 twice etc. are covered by quantities near the top
         1 => (asset(), 1u64..1000).prop_map(|((p, n), q)| (Tweaks { phantom_assets: vec![(p, n, u64::MAX - q)], ..Default::default() }, "huge-phantom".to_string())),
         1 => any::<u64>().prop_map(|f| (Tweaks { fee_override: Some(f), ..Default::default() }, "fee-overridden".to_string())),
+        // the classic bookkeeping slips: the fee declared but not paid / paid twice, the mint applied with the wrong sign
+        2 => prop::sample::select(vec![1i8, -1, 2]).prop_map(|k| (Tweaks { change_plus_fee: k, ..Default::default() }, "fee-not-paid-or-paid-twice".to_string())),
+        2 => Just((Tweaks { mint_sign_flip: true, ..Default::default() }, "mint-applied-with-opposite-sign".to_string())),
     ]
 }
 
